@@ -11,7 +11,23 @@ import (
 	"go/ast"
 	"go/token"
 	"go/types"
+	"math/bits"
 )
+
+// guardText renders a guard for messages.
+func c03GuardText(gd Guard) string {
+	t := ""
+	if gd.Cond.Tag != nil {
+		t = types.ExprString(gd.Cond.Tag) + " == "
+	}
+	if gd.Cond.Expr != nil {
+		t += types.ExprString(gd.Cond.Expr)
+	}
+	if !gd.Pol {
+		return "!(" + t + ")"
+	}
+	return t
+}
 
 func (x *c03Env) ruleF() {
 	c := x.c
@@ -89,11 +105,22 @@ func (x *c03Env) ruleF() {
 		}
 		return 0, false
 	}
-	// bitTest(cond): (P0 & C) != 0, > 0, == C  -> C
-	bitTest := func(cond ast.Expr) (int64, bool) {
-		b, ok := unparen(cond).(*ast.BinaryExpr)
+	// bitTest(cond): (P0 & C) != 0, > 0, == C  -> (C, true);  (P0 & C) == 0, <= 0, != C -> (C, false):
+	// the mask and whether the condition being TRUE means "a bit of the mask is set"
+	bitTest := func(cond ast.Expr) (int64, bool, bool) {
+		sense := true
+		cond = unparen(cond)
+		for {
+			u, ok := cond.(*ast.UnaryExpr)
+			if !ok || u.Op != token.NOT {
+				break
+			}
+			sense = !sense
+			cond = unparen(u.X)
+		}
+		b, ok := cond.(*ast.BinaryExpr)
 		if !ok {
-			return 0, false
+			return 0, false, false
 		}
 		for _, pr := range [][2]ast.Expr{{b.X, b.Y}, {b.Y, b.X}} {
 			m, ok := mask(pr[0])
@@ -104,14 +131,19 @@ func (x *c03Env) ruleF() {
 			if !isC {
 				continue
 			}
+			single := m&(m-1) == 0
 			switch {
-			case b.Op == token.NEQ && v == 0, b.Op == token.EQL && v == m && m&(m-1) == 0:
-				return m, true
+			case b.Op == token.NEQ && v == 0, b.Op == token.EQL && v == m && single:
+				return m, sense, true
 			case b.Op == token.GTR && v == 0 && pr[0] == b.X, b.Op == token.LSS && v == 0 && pr[0] == b.Y:
-				return m, true
+				return m, sense, true
+			case b.Op == token.EQL && v == 0, b.Op == token.NEQ && v == m && single:
+				return m, !sense, true
+			case b.Op == token.LEQ && v == 0 && pr[0] == b.X, b.Op == token.GEQ && v == 0 && pr[0] == b.Y:
+				return m, !sense, true
 			}
 		}
-		return 0, false
+		return 0, false, false
 	}
 	mouseT, _ := x.pk.Types.Scope().Lookup("Mouse").(*types.TypeName)
 	fieldOf := func(l ast.Expr) string {
@@ -151,70 +183,171 @@ func (x *c03Env) ruleF() {
 		return ""
 	}
 
-	// A. bit tests
+	// A. bit tests. Semantic form: every assignment that sets a modifier / the motion type is executed exactly
+	// under "bit w of the button parameter is set" — whatever statement (if, else-if chain, tagless switch,
+	// unrolled table row) spells the test. The guards of the assignment that are not guards of the successful
+	// return as well must be ONE positive test of the right bit (a wider positive mask around it is harmless);
+	// a negative test of another bit, or any other extra condition, makes the flags depend on each other.
 	wantBit := map[string]int64{"ModShift": 4, "ModAlt": 8, "ModCtrl": 16, "EventMotion": 32}
 	seenBit := map[string]bool{}
 	var motionAssign ast.Node
+	mentionsP0 := func(e ast.Expr) bool {
+		return containsNode(e, func(k ast.Node) bool { e, ok := k.(ast.Expr); return ok && isParam(e, 0) })
+	}
+	type gkey struct {
+		e   ast.Expr
+		pol bool
+	}
+	var ambient map[gkey]bool // guards common to every `return …, true`
+	for _, h := range g.Find(func(n ast.Node) bool { _, ok := n.(*ast.ReturnStmt); return ok }) {
+		rs := h.Node.(*ast.ReturnStmt)
+		if len(rs.Results) != 2 {
+			continue
+		}
+		if tv, ok := info.Types[rs.Results[1]]; !ok || tv.Value == nil || tv.Value.String() != "true" {
+			continue
+		}
+		here := map[gkey]bool{}
+		for _, gd := range g.Guards(h.Loc) {
+			here[gkey{gd.Cond.Expr, gd.Pol}] = true
+		}
+		if ambient == nil {
+			ambient = here
+			continue
+		}
+		for k := range ambient {
+			if !here[k] {
+				delete(ambient, k)
+			}
+		}
+	}
+	// conditions on the button parameter the rule cannot read
+	condUnknown := func(e ast.Expr, pos token.Pos) {
+		if _, _, ok := bitTest(e); !ok && mentionsP0(e) {
+			c.undecided("C03.f", name+"/test on the button parameter", pos, "a condition on Parameters[0][0] that is not a single-bit test `P & c != 0`: %s", types.ExprString(e))
+		}
+	}
 	ast.Inspect(fi.Decl.Body, func(n ast.Node) bool {
-		is, ok := n.(*ast.IfStmt)
-		if !ok {
-			return true
-		}
-		m, ok := bitTest(is.Cond)
-		if !ok {
-			if containsNode(is.Cond, func(k ast.Node) bool { e, ok := k.(ast.Expr); return ok && isParam(e, 0) }) {
-				c.undecided("C03.f", name+"/test on the button parameter", is.Pos(), "a condition on Parameters[0][0] that is not a single-bit test `P & c != 0`: %s", types.ExprString(is.Cond))
-			}
-			return true
-		}
-		understood := false
-		for _, s := range is.Body.List {
-			as, ok := s.(*ast.AssignStmt)
-			if !ok || len(as.Lhs) != 1 || len(as.Rhs) != 1 {
-				continue
-			}
-			what := ""
-			switch fieldOf(as.Lhs[0]) {
-			case "Modifiers":
-				switch as.Tok {
-				case token.OR_ASSIGN:
-					what = constName(as.Rhs[0])
-				case token.ASSIGN:
-					if b, ok := unparen(as.Rhs[0]).(*ast.BinaryExpr); ok && b.Op == token.OR {
-						if fieldOf(b.X) == "Modifiers" {
-							what = constName(b.Y)
-						} else if fieldOf(b.Y) == "Modifiers" {
-							what = constName(b.X)
-						}
+		switch t := n.(type) {
+		case *ast.IfStmt:
+			condUnknown(t.Cond, t.Pos())
+		case *ast.SwitchStmt:
+			if t.Tag == nil {
+				for _, cl := range t.Body.List {
+					for _, e := range cl.(*ast.CaseClause).List {
+						condUnknown(e, e.Pos())
 					}
 				}
-			case "EventType":
-				if as.Tok == token.ASSIGN {
-					what = constName(as.Rhs[0])
-					if what == "EventMotion" {
-						motionAssign = as
-					}
+			} else if mentionsP0(t.Tag) {
+				if _, isMask := mask(t.Tag); isMask {
+					c.undecided("C03.f", name+"/test on the button parameter", t.Pos(), "a switch on masked bits of Parameters[0][0]: %s", types.ExprString(t.Tag))
 				}
 			}
-			if what == "" {
-				continue
-			}
-			understood = true
-			w, known := wantBit[what]
-			key := fmt.Sprintf("%s/bit %d of the button parameter means %s", name, w, what)
-			if !known {
-				c.bad("C03.f", fmt.Sprintf("%s/bit 0x%x sets %s", name, m, what), as.Pos(), "SGR-1006 has no bit for %s", what)
-				continue
-			}
-			seenBit[what] = true
-			c.check(m == w, "C03.f", key, as.Pos(), fmt.Sprintf("tested mask is %d", m),
-				fmt.Sprintf("%s is derived from mask %d of the button parameter; xterm's SGR encoding uses %d: the modifier / motion flag of mouse reports is decoded wrongly", what, m, w))
-		}
-		if !understood && is.Else == nil {
-			c.undecided("C03.f", fmt.Sprintf("%s/effect of bit test 0x%x", name, m), is.Pos(), "the body of the bit test sets neither Modifiers nor EventType in a form the rule understands")
 		}
 		return true
 	})
+	for _, h := range g.Find(func(n ast.Node) bool { _, ok := n.(*ast.AssignStmt); return ok }) {
+		as := h.Node.(*ast.AssignStmt)
+		if len(as.Lhs) != 1 || len(as.Rhs) != 1 {
+			continue
+		}
+		what := ""
+		switch fieldOf(as.Lhs[0]) {
+		case "Modifiers":
+			switch as.Tok {
+			case token.OR_ASSIGN:
+				what = constName(as.Rhs[0])
+			case token.ASSIGN:
+				if b, ok := unparen(as.Rhs[0]).(*ast.BinaryExpr); ok && b.Op == token.OR {
+					if fieldOf(b.X) == "Modifiers" {
+						what = constName(b.Y)
+					} else if fieldOf(b.Y) == "Modifiers" {
+						what = constName(b.X)
+					}
+				}
+			}
+		case "EventType":
+			if as.Tok == token.ASSIGN {
+				if what = constName(as.Rhs[0]); what != "EventMotion" {
+					what = "" // press / release: part D
+				}
+			}
+		}
+		if what == "" {
+			continue
+		}
+		w, known := wantBit[what]
+		var pos, neg []int64
+		var extra []string
+		unread := false
+		for _, gd := range g.Guards(h.Loc) {
+			if ambient[gkey{gd.Cond.Expr, gd.Pol}] {
+				continue
+			}
+			if gd.Cond.Tag != nil || gd.Cond.Alts != nil {
+				if (gd.Cond.Tag != nil && mentionsP0(gd.Cond.Tag)) || (gd.Cond.Expr != nil && mentionsP0(gd.Cond.Expr)) {
+					unread = true
+				} else {
+					extra = append(extra, c03GuardText(gd))
+				}
+				continue
+			}
+			m, sense, ok := bitTest(gd.Cond.Expr)
+			switch {
+			case ok && sense == gd.Pol:
+				pos = append(pos, m)
+			case ok:
+				neg = append(neg, m)
+			case mentionsP0(gd.Cond.Expr):
+				unread = true // reported by condUnknown
+			default:
+				extra = append(extra, c03GuardText(gd))
+			}
+		}
+		if unread {
+			continue
+		}
+		if !known {
+			m := int64(0)
+			if len(pos) > 0 {
+				m = pos[0]
+			}
+			c.bad("C03.f", fmt.Sprintf("%s/bit 0x%x sets %s", name, m, what), as.Pos(), "SGR-1006 has no bit for %s", what)
+			continue
+		}
+		key := fmt.Sprintf("%s/bit %d of the button parameter means %s", name, w, what)
+		if what == "EventMotion" {
+			motionAssign = as
+		}
+		if len(pos) == 0 {
+			// not under a bit test at all: it does not count as the decode of the bit (reported below as missing)
+			continue
+		}
+		seenBit[what] = true
+		// the controlling test: the positive mask with the fewest bits
+		m := pos[0]
+		for _, p := range pos[1:] {
+			if bits.OnesCount64(uint64(p)) < bits.OnesCount64(uint64(m)) {
+				m = p
+			}
+		}
+		var why string
+		switch {
+		case m != w:
+			why = fmt.Sprintf("%s is derived from mask %d of the button parameter; xterm's SGR encoding uses %d: the modifier / motion flag of mouse reports is decoded wrongly", what, m, w)
+		case len(neg) > 0:
+			why = fmt.Sprintf("%s is set only when bit(s) %v of the button parameter are clear: the flags of an SGR report are independent (a report with several of them set loses %s)", what, neg, what)
+		case len(extra) > 0:
+			why = fmt.Sprintf("%s is set only under the extra condition %v, which accepted reports need not satisfy: reports with bit %d set are delivered without %s", what, extra, w, what)
+		default:
+			for _, p := range pos {
+				if p&w == 0 {
+					why = fmt.Sprintf("%s is set only when a bit of mask %d is set as well: the flags of an SGR report are independent", what, p)
+				}
+			}
+		}
+		c.check(why == "", "C03.f", key, as.Pos(), fmt.Sprintf("set exactly under the test of mask %d", m), why)
+	}
 	for _, w := range []string{"ModShift", "ModAlt", "ModCtrl", "EventMotion"} {
 		if !seenBit[w] {
 			c.bad("C03.f", fmt.Sprintf("%s/bit %d of the button parameter means %s", name, wantBit[w], w), fi.Decl.Pos(), "no `if P&%d != 0 { … %s }` in parseMouseEvent: %s is never reported", wantBit[w], w, w)
